@@ -199,6 +199,18 @@ fn stacks_env(s: &str, x: u64) -> Vec<(&'static str, Dispatch, RecLayer)> {
     if let Some(f) = env_added(s) {
         extra.push(("E-added", Dispatch::new(tracing_subscriber::registry().with(f).with(r10.clone())), r10));
     }
+    // the same string parsed with regular expressions switched off: numbers and booleans are matched as before (only text
+    // patterns change their meaning, and those strings are not compared)
+    let texty = s.contains("=abc") || s.contains("=abd");
+    // (every string is parsed that way - parsing must not panic; only the non-text ones are run and compared)
+    let noregex = vh_common::catch(|| EnvFilter::builder().with_regex(false).parse(s).ok());
+    if let Err(e) = &noregex {
+        panic!("EnvFilter::builder().with_regex(false).parse({s:?}) panicked: {e}");
+    }
+    if let (false, Ok(Some(f))) = (texty, noregex) {
+        let r11 = RecLayer::default();
+        extra.push(("E-noregex", Dispatch::new(tracing_subscriber::registry().with(f).with(r11.clone())), r11));
+    }
     let mut v = vec![
         // the per-layer filter type-erased: Box<dyn Filter> / Arc<dyn Filter> must forward every callback
         ("E-box", Dispatch::new(tracing_subscriber::registry().with(r7.clone().with_filter(Box::new(env(s).unwrap()) as Box<DynF>))), r7),
@@ -314,7 +326,8 @@ fn main() {
                     o["i"] = json!(i);
                     o["cfg"] = json!(n);
                     o["reply"] = reply;
-                    if n == "E-added" {
+                    let texty = c["dirs"].as_array().map(|ds| ds.iter().any(|d| matches!(d["v"].as_str(), Some("abc") | Some("abd")))).unwrap_or(false);
+                    if n == "E-added" || (n == "E-noregex" && !texty) {
                         if let Some(rf) = &reference {
                             o["same_as_parsed"] = json!(rf[k] == o["reply"]);
                         }
